@@ -314,6 +314,33 @@ pub fn native_main(tier: Tier) {
             acc.hist(if r.is_ok() { "absurd_budget_accepted" } else { "absurd_budget_refused_by_panic" });
         }
     }
+    // shipped sizes: no constant overrides, so the buffers have the sizes a user gets (128 KiB
+    // growing by doubling to several MiB; 10 MiB at once when reallocation is off); anything the
+    // code does differently for large allocations is only reachable here
+    for (realloc, sizes) in [
+        (false, vec![100usize, 3 << 20, 100, 8 << 20, 50]),
+        (true, vec![100_000usize; 45]),
+        (true, vec![10, 5 << 20, 10]),
+        (true, vec![(2 << 20) - 16, 1, (4 << 20) - 40]),
+    ] {
+        let cfg = SorterCfg { min_memory: None, initial: None, dump_threshold: Some(10 << 20), allow_realloc: realloc, max_nb_chunks: Some(3), ..SorterCfg::scaled(0, 0, realloc, 3, false) };
+        let live = calloc::live();
+        let r = run_sizes(&cfg, &sizes, true).and_then(|_| check_alloc("shipped buffer sizes"));
+        let r = r.and_then(|_| if calloc::live() != live { Err("the buffer is leaked after the run".to_string()) } else { Ok(()) });
+        acc.evaluations += 1;
+        acc.transitions += sizes.len() as u64;
+        match r {
+            Ok(()) => acc.hist("shipped_size_run_ok"),
+            Err(msg) => {
+                let case = Case { cfg: cfg.clone(), sizes: sizes.clone() };
+                acc.violation(Violation {
+                    signature: format!("shipped;{}", serde_json::to_string(&case).unwrap()),
+                    summary: format!("C17: shipped constants, allow_realloc {realloc}, inserts of sizes {:?}: {msg}", sizes),
+                    case: json!({"kind": "sizes", "case": case}),
+                });
+            }
+        }
+    }
     read_paths(&mut acc);
     acc.count("native_total_allocations_checked", calloc::report().total_allocs);
     if calloc::errors_total() > 0 && acc.violations.is_empty() {
